@@ -257,7 +257,8 @@ def spaces(tier, variant, seed):
     sp.append(Space("Z_N_large", [(c, vi) for c in "dioxX" for vi in range(len(BIG))], zb_cases, zb_one,
                     "%Z and %N on values beyond long (to 200 digits), negative values with o/x/X (signed extension): C layout rules on the get_str digits"))
 
-    QV = [Fraction(0), Fraction(1), Fraction(-1), Fraction(1, 2), Fraction(-22, 7), Fraction(255, 256), Fraction(-(1 << 64) - 1, 10 ** 20 + 1), Fraction(10 ** 30, 3), Fraction(-5)]
+    QV = [Fraction(0), Fraction(1), Fraction(-1), Fraction(1, 2), Fraction(-22, 7), Fraction(255, 256), Fraction(-(1 << 64) - 1, 10 ** 20 + 1), Fraction(10 ** 30, 3), Fraction(-5),
+          Fraction(-7, (1 << 64) + 1), Fraction(5, (3 << 64) + 1), Fraction(1, (1 << 128) + 1), Fraction(3, (1 << 64) + 2), Fraction(-9, 1 << 64)]      # multi-limb denominators, low limb 1 / 2 / 0
 
     def q_cases(blk):
         conv = blk
